@@ -1019,7 +1019,16 @@ def override_prepare(ctx):
         defs = [f"-Dov_{t}_1_0_xs_ARRAY_CAPACITY_={n}U" for t, n in red.items()]
         jobs.append((name, red, exe, ["gcc", "-std=c11", "-Wall", "-Wno-unused-function"] + SAN + defs +
                      ["-I", str(gen), str(HERE / "c" / "c04_override.c"), "-o", str(exe), "-lm"]))
-    return {"base": base, "gen": gen, "configs": configs, "jobs": jobs, "res": None, "gen_log": None}
+    # C++: the same types; the application switches the up-front buffer check off with the macro the option provides
+    cpp_jobs = []
+    nocheck = [f"-Dov_{t}_1_0_DISABLE_SERIALIZATION_BUFFER_CHECK_" for t in OV_TYPES]
+    for std in (("c++14", "c++17") if ctx.quick else ("c++14", "c++17", "c++20")):
+        g = base / ("gencpp_" + std.replace("+", "p"))
+        for cname, defs in (("default", []), ("nocheck", nocheck)):
+            exe = base / f"ovcpp_{std.replace('+', 'p')}_{cname}"
+            cpp_jobs.append((std, cname, g, exe, ["g++", f"-std={std}", "-Wall", "-Wno-unused-function", "-include", "variant"] + SAN + defs +
+                             ["-I", str(g), str(HERE / "cpp" / "c04_override.cpp"), "-o", str(exe)]))
+    return {"base": base, "gen": gen, "configs": configs, "jobs": jobs, "res": None, "gen_log": None, "cpp_jobs": cpp_jobs, "cpp_res": None}
 
 
 def override_build(state):
@@ -1030,8 +1039,22 @@ def override_build(state):
     if p.returncode != 0:
         state["gen_log"] = (p.stdout + p.stderr)[-2000:]
         return
-    with concurrent.futures.ThreadPoolExecutor(4) as ex:
-        state["res"] = list(ex.map(lambda j: compile_cmd(j[3]), state["jobs"]))
+    def cpp_job(j):
+        std, cname, g, exe, cmd = j
+        if cname == "default":      # generate once per standard (the second configuration of a standard waits for the first)
+            q = subprocess.run([common.PY, "-m", "nunavut", "--experimental-languages", "--target-language", "cpp", "--language-standard", std,
+                                "--enable-override-variable-array-capacity", "--outdir", str(g), str(CORPUS / "override" / "ov")],
+                               capture_output=True, text=True, timeout=600, env=env)
+            if q.returncode != 0:
+                return False, (q.stdout + q.stderr)[-2000:]
+        return None
+    with concurrent.futures.ThreadPoolExecutor(8) as ex:
+        gens = list(ex.map(cpp_job, [j for j in state["cpp_jobs"] if j[1] == "default"]))
+        fut_c = [ex.submit(compile_cmd, j[3]) for j in state["jobs"]]
+        bad_gen = [g for g in gens if g is not None]
+        fut_cpp = [ex.submit(compile_cmd, j[4]) for j in state["cpp_jobs"]] if not bad_gen else []
+        state["res"] = [f.result() for f in fut_c]
+        state["cpp_res"] = [f.result() for f in fut_cpp] if not bad_gen else [bad_gen[0]] * len(state["cpp_jobs"])
 
 
 def override_stream(ctx, vdrv, state):
@@ -1161,6 +1184,52 @@ def override_stream(ctx, vdrv, state):
                         ctx.disagree("override/" + name, {"request": l}, m, a)
         if exit_kind:
             ctx.fail({"kind": exit_kind, "target": "c/override", "construct": "exit"}, "sanitizer report at exit", {"stream": "override", "config": name})
+    # ---- C++: with every write going through the checked setters, the buffer stays protected even without the up-front check
+    for (std, cname, g, exe, cmd), (ok, log) in zip(state["cpp_jobs"], state["cpp_res"] or []):
+        if not ok:
+            ctx.broken.append({"kind": "override-build", "config": f"cpp/{std}/{cname}", "log_tail": log[-2000:]})
+            continue
+        check = "1" if cname == "default" else "0"
+        lines, meta = [], []
+        for t, d in OV_TYPES.items():
+            eb, cap, lp = d["eb"], d["cap"], d["lp"]
+            lines.append(f"info {t}"); meta.append((t, "info", None))
+            need = lambda c: (8 + lp + c * eb + 8 + 7) // 8
+            for count in sorted({0, 1, 2, 3, min(cap, 100), cap - 1, cap, cap + 1}):
+                n = need(min(count, cap))
+                for bcap in sorted({0, 1, 2, n // 2, max(0, n - 2), max(0, n - 1), n, n + 1, need(cap), need(cap) + 1}):
+                    lines.append(f"ser {t} {count} {bcap}"); meta.append((t, "ser", (count, bcap)))
+        answers, exit_kind = run_lines(exe, lines, max_crashes=2000)
+        mlines = [f"cser {check} 0 {a[1]} p:8:1;v:{OV_TYPES[t]['lp']}:{OV_TYPES[t]['eb']}:{OV_TYPES[t]['cap']}:{OV_TYPES[t]['cap']}:1:1;p:8:1 p;c:{a[0]};p"
+                  for t, op, a in meta if op == "ser"]
+        mans = iter(vdrv.ask(mlines) if vdrv is not None else [])
+        nfail = 0
+        for (t, op, arg), l, a in zip(meta, lines, answers):
+            if op == "info":
+                if a != f"ok check={check}":
+                    ctx.disagree("override/cpp-info", {"config": f"{std}/{cname}", "request": l}, f"ok check={check}", a)
+                continue
+            m = next(mans, None)
+            ctx.case(("Ocpp", std, cname, l), nontrivial=(cname == "nocheck"))
+            ctx.count("override_cpp_ser")
+            rp = {"stream": "override-cpp", "std": std, "config": cname, "defines": " ".join(x for x in cmd if x.startswith("-Dov_")) or "(none)",
+                  "nnvg": f"--target-language cpp --language-standard {std} --enable-override-variable-array-capacity",
+                  "dsdl": f"uint8 a\nuint{OV_TYPES[t]['eb']}[<={OV_TYPES[t]['cap']}] xs\nuint8 b\n@sealed\n", "request": l, "observed": a, "model": m}
+            bad = False
+            if a.startswith("crash:"):
+                bad = True
+                nfail += 1
+                if nfail <= 3:
+                    ctx.fail({"kind": a.split(":", 1)[1], "target": "cpp/override", "construct": "serialize-capacity-check-disabled" if check == "0" else "serialize"},
+                             "C++ serialization leaves the buffer: with the up-front check switched off the per-write checks must still return "
+                             "SerializationBufferTooSmall", rp)
+            elif a.startswith("err:") and a not in DOCUMENTED:
+                ctx.fail({"kind": "undocumented-error", "target": "cpp/override", "construct": "serialize", "error": a}, "undocumented outcome", rp)
+            if m is not None:
+                ctx.traces += 1
+                cm = ("ok", int(m.split(" ")[1]) // 8) if m.startswith("ok") else ("err", m[4:]) if m.startswith("err:") else ("other", m)
+                if bad or outcome_class(a, "ser") != cm:
+                    ctx.disagree(f"override/cpp/{std}/{cname}", {"request": l}, m, a)
     ctx.sample({"stream": "override", "configs": [c[0] for c in configs], "checked_setter_used_for": {t: {"a": f[0], "prefix": f[1], "elements": f[2], "b": f[3]} for t, f in flags.items()}})
 
 
@@ -1305,6 +1374,22 @@ def replay(ctx, path):
         ctx.cleanup()
         bad = bool(kind) or ans[0].startswith("crash") or (len(ans) == 2 and ans[0] != ans[1])
         return 1 if bad else 0
+    if stream == "override-cpp" and "request" in rp:
+        base = ctx.scratch / "rocpp"
+        base.mkdir(parents=True, exist_ok=True)
+        env = dict(os.environ); env["PYTHONPATH"] = str(common.REPO / "src")
+        subprocess.run([common.PY, "-m", "nunavut", "--experimental-languages", "--target-language", "cpp", "--language-standard", rp["std"],
+                        "--enable-override-variable-array-capacity", "--outdir", str(base / "gen"), str(CORPUS / "override" / "ov")],
+                       capture_output=True, timeout=600, env=env)
+        defs = re.findall(r"-Dov_\w+", rp.get("defines", ""))
+        ok, log = compile_cmd(["g++", f"-std={rp['std']}", "-include", "variant"] + SAN + defs + ["-I", str(base / "gen"), str(HERE / "cpp" / "c04_override.cpp"),
+                               "-o", str(base / "ov")])
+        if not ok:
+            print("build failed:", log[-1500:]); ctx.cleanup(); return 2
+        ans, kind = run_lines(base / "ov", [rp["request"]])
+        print(json.dumps({"answer": ans, "exit": kind, "before": rp.get("observed")}))
+        ctx.cleanup()
+        return 1 if ans[0].startswith("crash") else 0
     if stream == "override" and "request" in rp:
         base = ctx.scratch / "ro"
         base.mkdir(parents=True, exist_ok=True)
